@@ -1,6 +1,6 @@
 """C02 - model, instance and body agree: every nodeset/ref names one existing node; ambiguity is rejected."""
 
-from harness import corpus
+from harness import corpus, tlc
 from harness.props import _rp
 
 PROP = "C02"
@@ -46,12 +46,95 @@ def run(rep):
     for o in sub[:2] + [x for x in sub2 if x["res"]["status"] == "pyxform_error"][:2]:
         rep.sample({"rows": o["shapes"], "outcome": o["res"]["status"], "message": o["res"].get("message"), "trace_events": len(o["trace"])})
     _rp.run_canaries(rep, PROP, sub, acc)
+    part_histories(rep)
 
 
 def replay(rep, case):
     c = case["case"]
+    if "history" in c:
+        o = _run_history({"hist": c["history"]})
+        n = 6
+        tcfg = corpus._cfg("Trace_SurveyObject.cfg", "SPECIFICATION TSpec\n" + SO_CFG % n + "CONSTRAINT Accepted\nCHECK_DEADLOCK FALSE\n")
+        a, info = tlc.validate_traces("Trace_SurveyObject", tcfg, [o["trace"]], shards=1, tag="replay")
+        if 0 not in a:
+            rep.violation(f"{PROP}:history:{info['progress'].get(0, (0, '?'))[1]}", "replay", c)
+        return
     outs = corpus.run_forms([{"shapes": c["shapes"], "seed": c["seed"], "feat": c["feat"], "fmt": c["fmt"]}])
     sub, acc, rejected = _rp.validate(rep, PROP, outs, "replay")
     for o, l, clause in rejected:
         rep.violation(f"{PROP}:{clause}", f"trace rejected at event {l} clause {clause}", c)
     rep.sample({"rows": c["shapes"]})
+
+
+# ---------------------------------------------------------------- survey-object histories (SurveyObject.tla)
+SO_CFG = 'CONSTANT Names = {"q0", "a", "g0"}\nCONSTANT MaxOps = %d\n'
+
+
+def _run_history(job):
+    """replay one TLC history on a real Survey object through the public builder API"""
+    from pyxform.builder import create_survey_element_from_dict
+    from pyxform.errors import PyXFormError
+
+    from harness import project
+
+    s = create_survey_element_from_dict({"type": "survey", "name": "data", "title": "t", "id_string": "h", "children": [
+        {"type": "text", "name": "q0", "label": "Q0"},
+        {"type": "group", "name": "grp", "label": "G", "children": [{"type": "integer", "name": "g0", "label": "G0"}]}]})
+    grp = next(c for c in s.children if c.name == "grp")
+    trace = []
+    for op, arg in job["hist"]:
+        if op in ("add_root", "add_group"):
+            q = create_survey_element_from_dict({"type": "text", "name": arg, "label": arg.upper()})
+            (s if op == "add_root" else grp).add_child(q)
+            trace.append({"op": op, "name": arg})
+            continue
+        ev = {"op": "render", "outcome": "ok", "unique_siblings": False, "binds_once": False, "controls_once": False, "closure": False}
+        try:
+            x = s.to_xml(validate=False, pretty_print=False)
+            root = project.parse(x)
+            inst = [tuple(n["p"]) for n in project.instance_preorder(root) if not n["tmpl"]]
+            binds = [b["nodeset"] for b in project.binds(root)]
+            refs = [c["ref"] for c in project.body_preorder(root)]
+            paths = {"/" + "/".join(p) for p in inst}
+            ev.update(unique_siblings=len(inst) == len(set(inst)), binds_once=len(binds) == len(set(binds)), controls_once=len(refs) == len(set(refs)),
+                      closure=all(b in paths for b in binds) and all(r in paths for r in refs))
+        except PyXFormError:
+            ev["outcome"] = "rejected"
+        except Exception as e:  # noqa: BLE001
+            ev["outcome"] = "crash:" + type(e).__name__
+        trace.append(ev)
+    return {"hist": job["hist"], "trace": trace}
+
+
+def part_histories(rep):
+    from harness import conv
+
+    n = 5 if rep.tier == "quick" else 6
+    cfg = corpus._cfg("Gen_SurveyObject.cfg", "SPECIFICATION SOSpec\n" + SO_CFG % n + "INVARIANT AcceptedMeansUnambiguous\nCONSTRAINT Emit\nCHECK_DEADLOCK FALSE\n")
+    cases, r = tlc.generate("Gen_SurveyObject", cfg, tag="genso", timeout=900)
+    rep.add_mc(r, f"SurveyObject: histories of <= {n} builder-API operations (add child to root/group, render) on one Survey object; AcceptedMeansUnambiguous")
+    hists = [c["hist"] for c in cases if sum(1 for h in c["hist"] if h[0] == "render") >= 1]
+    hists = corpus.pick(hists, 1500 if rep.tier == "quick" else 20000, rep.seed)
+    rep.bounds["survey_object_histories"] = {"max_ops": n, "replayed": len(hists)}
+    outs = conv.map_cases(_run_history, [{"hist": h} for h in hists], chunksize=16)
+    for o in outs:
+        if o.get("status") == "harness_error":
+            raise tlc.MachineryError(o["message"] + "\n" + o.get("tb", ""))
+    tcfg = corpus._cfg("Trace_SurveyObject.cfg", "SPECIFICATION TSpec\n" + SO_CFG % n + "CONSTRAINT Accepted\nCHECK_DEADLOCK FALSE\n")
+    acc, info = tlc.validate_traces("Trace_SurveyObject", tcfg, [o["trace"] for o in outs], shards=6, tag="trso")
+    rep.traces_validated += len(acc)
+    rep.extra.setdefault("trace_runs", []).append({"source": "Survey-object histories (render / mutate / render)", "traces": len(outs), "accepted": len(acc), "wall_s": round(info["wall"], 1)})
+    for i, o in enumerate(outs):
+        rep.case({"history": o["hist"]})
+        if i not in acc:
+            l, clause = info["progress"].get(i, (0, "unexplained_event"))
+            rep.violation(f"{PROP}:history:{clause}", f"clause {clause} at step {l}; history={o['hist']} events={o['trace']}"[:600], {"history": o["hist"], "clause": clause})
+    import copy
+    base = next(o for i, o in enumerate(outs) if i in acc and any(e["op"] == "render" and e["outcome"] == "rejected" for e in o["trace"]))
+    t = copy.deepcopy(base["trace"])
+    e = next(e for e in t if e["op"] == "render" and e["outcome"] == "rejected")
+    e.update(outcome="ok", unique_siblings=True, binds_once=True, controls_once=True, closure=True)
+    a, _ = tlc.validate_traces("Trace_SurveyObject", tcfg, [t, base["trace"]], shards=1, tag="canso")
+    if 0 in a or 1 not in a:
+        raise tlc.MachineryError("survey-object canary failure")
+    rep.extra.setdefault("canaries_rejected", []).append("ambiguous_tree_rendered_after_an_earlier_render")
